@@ -214,12 +214,28 @@ impl Monitor for C08 {
                 }
             }
         }
-        c.stats.sig(&[
-            step.op.kind(),
-            if out.ok() { "ok" } else { "rej" },
-            if *sender == pm { "pm" } else { "user" },
-            &changed.len().to_string(),
-        ]);
+        // abstract state: operation, outcome, who sends relative to the position, position state and
+        // where the clock stands relative to its unlock instant
+        let target: Option<&Position> = match action {
+            PositionAction::Create { .. } => None,
+            PositionAction::Expand { identifier } | PositionAction::Close { identifier, .. } | PositionAction::Withdraw { identifier, .. } => a.get(identifier),
+        };
+        let who = match target {
+            _ if *sender == pm => "pm",
+            Some(p) if p.receiver.as_str() == sender => "owner",
+            Some(_) => "other",
+            None => "n/a",
+        };
+        let state = match target {
+            None => "none",
+            Some(p) if p.open => "open",
+            Some(p) => match p.expiring_at {
+                Some(e) if now < e => "locked",
+                Some(e) if now == e => "unlock_instant",
+                _ => "unlocked",
+            },
+        };
+        c.stats.sig(&[step.op.kind(), if out.ok() { "ok" } else { "rej" }, who, state, &changed.len().to_string(), if funds.is_empty() { "nofunds" } else { "funds" }]);
         Ok(())
     }
 }
